@@ -77,6 +77,11 @@ CHECKS = {
     "C08": ("Gen_TableMut.tla: TLC takes valid table encodings apart into entry frames and emits every single-defect "
             "reassembly (hash, count, duplicate, unknown, padding, declared size, corrupt/truncated value); the real decoder's "
             "status, value, consumed length and error category are compared with Dec of Wire.tla (TrCodec.tla).", "6 C08"),
+    "C09": ("Fungible.tla: DocFungible (the documented fungible pairs as a relation on schemas) and Norm (wire-level "
+            "content); the compiler evaluates IsFungible and Protocol admission on all ordered pairs of a 70-type grammar "
+            "(FUNG event): reflexive, symmetric, DocFungible => true, admits = value; every pair reported fungible is "
+            "cross-decoded on boundary values and judged by Dec of Wire.tla (accept when the counts fit, corresponding "
+            "value, identical re-encoding).", "6 C09"),
 }
 
 PENDING_REASON = "check under construction in this session (DESIGN.md section 12); moves to checks when built"
